@@ -104,3 +104,158 @@ def attrs_fields(interp, cls):
             a.attrs["name"] = f[0]
             out.append(a)
     return tuple(out)
+
+
+# ------------------------------------------------------------------------- kornia
+
+
+@lib("kornia.morphology.dilation")
+def kornia_dilation(interp, tensor, kernel, structuring_element=None, origin=None, border_type="geodesic",
+                    border_value=0.0, max_val=1e4, engine="unfold"):
+    """Read from the installed kornia 0.8.3 source (morphology.py): the input is padded with
+    -max_val ('geodesic'), each window cell gets +0 where the (flipped) kernel is non-zero and
+    -max_val where it is zero, and the output is the maximum over the window (torch.max, so a
+    NaN in the window makes the result NaN)."""
+    if structuring_element is not None or origin is not None or border_type != "geodesic":
+        raise Unsupported("dilation with structuring element / origin / non-geodesic border")
+    if not (isinstance(tensor, STensor) and tensor.rank == 4):
+        raise PyExc("ValueError", ("Input size must have 4 dimensions",))
+    if not (isinstance(kernel, STensor) and kernel.rank == 2 and kernel.is_concrete()):
+        raise Unsupported("dilation with a non-constant kernel")
+    kh, kw = kernel.shape
+    kv = kernel.tolist()
+    oh, ow = kh // 2, kw // 2
+    H, W = tensor.shape[2], tensor.shape[3]
+    src = tensor.reader()
+    neg = -float(max_val)
+
+    def fn(idx):
+        b, c, i, j = idx
+        acc = None
+        for u in range(kh):
+            for v in range(kw):
+                # neighborhood.flip((0,1))[u, v] = neighborhood[kh-1-u, kw-1-v]
+                off = 0.0 if kv[kh - 1 - u][kw - 1 - v] != 0 else neg
+                ii = V.i_add(i, u - oh)
+                jj = V.i_add(j, v - ow)
+                inb = V.b_and(V.i_le(0, ii), V.i_lt(ii, H), V.i_le(0, jj), V.i_lt(jj, W))
+                if inb is True:
+                    x = src([b, c, ii, jj])
+                elif inb is False:
+                    x = neg
+                else:
+                    x = V.f_ite(V.zbool(inb), src([b, c, ii, jj]), neg)
+                t = V.f_add(x, off) if off != 0.0 else x
+                acc = t if acc is None else V.f_max(acc, t)
+        return acc
+
+    return T.from_fn(list(tensor.shape), FLOAT, fn)
+
+
+_UNSPEC_V = z3.Function("crop_unspecified_v", z3.IntSort(), z3.IntSort(), z3.IntSort(), z3.IntSort(), z3.RealSort())
+_UNSPEC_N = z3.Function("crop_unspecified_n", z3.IntSort(), z3.IntSort(), z3.IntSort(), z3.IntSort(), z3.BoolSort())
+
+
+@lib("kornia.geometry.transform.crop_and_resize", "kornia.geometry.transform.crop.crop_and_resize")
+def kornia_crop_and_resize(interp, input_tensor, boxes, size, mode="bilinear", padding_mode="zeros", align_corners=True):
+    """Trusted contract, restricted to the boxes this code base produces (make_centered_bboxes):
+    axis-aligned boxes whose side is size-1 (unit scale).  With align_corners=True the output
+    pixel (u, v) then samples the source at (y0+u, x0+v) exactly; bilinear interpolation at
+    that point is  sum of the four neighbouring pixels weighted by the fractional offsets,
+    with zeros outside the image (padding_mode='zeros').  For integer corners this is the pixel
+    itself.  Other boxes (scaled / rotated) are outside the model: Unsupported."""
+    if not (isinstance(input_tensor, STensor) and input_tensor.rank == 4):
+        raise PyExc("ValueError", ("crop_and_resize expects a BxCxHxW tensor",))
+    if not (isinstance(boxes, STensor) and boxes.rank == 3):
+        raise PyExc("ValueError", ("boxes must be Bx4x2",))
+    sz = []
+    for x in interp.iterate_concrete(size):
+        if isinstance(x, STensor):
+            x = x.at([0] * x.rank)
+        x = V.simplify_scalar(x) if isinstance(x, z3.ExprRef) else x
+        if isinstance(x, float) and x == int(x):
+            x = int(x)
+        if not isinstance(x, int):
+            raise Unsupported("crop_and_resize with a symbolic output size")
+        sz.append(x)
+    oh, ow = sz
+    B = input_tensor.shape[0]
+    e = T.dims_equal(B, boxes.shape[0])
+    if e is False:
+        raise PyExc("ValueError", ("batch size of boxes and input differ",))
+    if e is None:
+        interp.path.require(V.i_eq(B, boxes.shape[0]), "ValueError", "batch size of boxes and input differ")
+    bx = boxes.reader()
+    src = input_tensor.reader()
+    H, W = input_tensor.shape[2], input_tensor.shape[3]
+    # kornia normalises pixel coordinates by (size - 1) and substitutes an epsilon when a side
+    # is one pixel long: the warp is then degenerate, so the contract covers sides >= 2 only
+    if not interp.path.provable(V.b_and(V.i_le(2, H), V.i_le(2, W))):
+        raise Unsupported("crop_and_resize on an image with a one-pixel side (kornia's coordinate normalisation is degenerate there)")
+    # box geometry precondition (checked lazily per box index at use): unit scale, axis aligned
+    checked = {}
+
+    def geom(b):
+        x0, y0 = bx([b, 0, 0]), bx([b, 0, 1])
+        x1, y1 = bx([b, 1, 0]), bx([b, 1, 1])
+        x2, y2 = bx([b, 2, 0]), bx([b, 2, 1])
+        x3, y3 = bx([b, 3, 0]), bx([b, 3, 1])
+        ok = V.b_and(V.f_eq(y1, y0), V.f_eq(x3, x0), V.f_eq(x2, x1), V.f_eq(y2, y3),
+                     V.f_eq(V.f_sub(x1, x0), float(ow - 1)), V.f_eq(V.f_sub(y3, y0), float(oh - 1)))
+        return x0, y0, ok
+
+    def pix(b, c, yy, xx):
+        inb = V.b_and(V.i_le(0, yy), V.i_lt(yy, H), V.i_le(0, xx), V.i_lt(xx, W))
+        if inb is True:
+            return src([b, c, yy, xx])
+        if inb is False:
+            return 0.0
+        return V.f_ite(V.zbool(inb), src([b, c, yy, xx]), 0.0)
+
+    def fn(idx):
+        b, c, u, v = idx
+        x0, y0, ok = geom(b)
+        key = T._key([b])
+        if key not in checked:
+            checked[key] = True
+            if not interp.path.provable(V.b_or(V.b_not(V.b_and(V.i_le(0, b), V.i_lt(b, B))), ok)):
+                nanbox = V.b_or(V.f_isnan(x0), V.f_isnan(y0))
+                if not interp.path.provable(V.b_or(V.b_not(V.b_and(V.i_le(0, b), V.i_lt(b, B))), ok, nanbox)):
+                    raise Unsupported("crop_and_resize: box is not provably a unit-scale axis-aligned box")
+        # integer corner?  then exact pixel copy; otherwise bilinear blend
+        xi = V.f_floor_to_int(x0) if not isinstance(x0, float) else int(math.floor(x0)) if not math.isnan(x0) else 0
+        yi = V.f_floor_to_int(y0) if not isinstance(y0, float) else int(math.floor(y0)) if not math.isnan(y0) else 0
+        fx = V.f_sub(x0, T.cast_scalar(xi, FLOAT))
+        fy = V.f_sub(y0, T.cast_scalar(yi, FLOAT))
+        yy, xx = V.i_add(yi, u), V.i_add(xi, v)
+        int_corner = V.b_and(V.f_eq(fx, 0.0), V.f_eq(fy, 0.0))
+        exact = pix(b, c, yy, xx)
+        # grid_sample multiplies the neighbouring pixels by (near-)zero weights; a NaN/inf
+        # neighbour therefore contaminates the sample, and which side the zero-weight
+        # neighbour lies on depends on rounding.  The contract is exact only when the 3x3
+        # neighbourhood of the sampled pixel is finite; otherwise the value is unspecified.
+        clean = []
+        for dy_ in (-1, 0, 1):
+            for dx_ in (-1, 0, 1):
+                q = pix(b, c, V.i_add(yy, dy_), V.i_add(xx, dx_))
+                clean.append(V.f_isfinite(q))
+        clean = V.b_and(*clean)
+        if clean is not True:
+            if isinstance(clean, bool):
+                exact = math.nan
+            else:
+                zb = [V.zint(t_) for t_ in (b, c, u, v)]
+                un = V.SFloat(_UNSPEC_N(*zb), False, _UNSPEC_V(*zb))
+                exact = V.f_ite(V.zbool(clean), exact, un)
+        if int_corner is True or interp.path.provable(int_corner):
+            return exact
+        p00, p01 = exact, pix(b, c, yy, V.i_add(xx, 1))
+        p10, p11 = pix(b, c, V.i_add(yy, 1), xx), pix(b, c, V.i_add(yy, 1), V.i_add(xx, 1))
+        top = V.f_add(V.f_mul(p00, V.f_sub(1.0, fx)), V.f_mul(p01, fx))
+        bot = V.f_add(V.f_mul(p10, V.f_sub(1.0, fx)), V.f_mul(p11, fx))
+        blend = V.f_add(V.f_mul(top, V.f_sub(1.0, fy)), V.f_mul(bot, fy))
+        if int_corner is False:
+            return blend
+        return V.f_ite(V.zbool(int_corner), exact, blend)
+
+    return T.from_fn([B, input_tensor.shape[1], oh, ow], FLOAT, fn)
